@@ -22,6 +22,22 @@ from .zx import Unsupported, ew, is_sym, to_obj
 
 RULES = {}
 STATS = {"prims": {}}
+EXACT = [False]   # exact mode (set by trace.symbolic(exact=True)): concrete float arithmetic is done on rationals
+EXACT_PRIMS = {"add", "sub", "mul", "div", "neg", "dot_general", "reduce_sum", "reduce_max", "reduce_min", "max", "min", "select_n",
+               "integer_pow", "square", "abs", "cumsum", "clamp"}
+
+
+def _exact_worthwhile(invals):
+    fl = False
+    for a in invals:
+        a = np.asarray(a)
+        if a.size > 20000:
+            return False
+        if np.issubdtype(a.dtype, np.floating):
+            if not np.isfinite(a).all():
+                return False
+            fl = True
+    return fl
 
 
 def rule(*names):
@@ -631,16 +647,27 @@ def apply_primitive(prim, invals, params):
     STATS["prims"][name] = STATS["prims"].get(name, 0) + 1
     if name in _STRUCTURED:
         return _STRUCTURED[name](prim, invals, params)
-    if not any(is_sym(x) for x in invals):
+    if not any(is_sym(x) for x in invals) and not (EXACT[0] and name in EXACT_PRIMS and name in RULES and _exact_worthwhile(invals)):
         with core.set_current_trace(core.eval_trace):
             outs = prim.bind(*[jnp.asarray(x) for x in invals], **params)
         if prim.multiple_results:
             return [np.asarray(o) for o in outs]
         return np.asarray(outs)
     r = RULES.get(name)
+    if r is None and not any(zx.has_z(x) for x in invals if is_sym(x)):
+        # exact-mode rationals reaching a primitive without a rule (special functions): evaluate in floating point
+        conc = [zx.to_concrete(x, _obj_dtype(x)) if is_sym(x) else x for x in invals]
+        with core.set_current_trace(core.eval_trace):
+            outs = prim.bind(*[jnp.asarray(x) for x in conc], **params)
+        return [np.asarray(o) for o in outs] if prim.multiple_results else np.asarray(outs)
     if r is None:
         return _via_decomposition(prim, invals, params)
     return r(*invals, _prim=prim, **params)
+
+
+def _obj_dtype(x):
+    e = next((v for v in x.flat), 0.0)
+    return np.bool_ if zx.is_bool_like(e) else (np.int32 if zx.is_int_like(e) else np.float64)
 
 
 def _aval_of(x):
